@@ -68,14 +68,17 @@ package engine
 //@   property C19
 //@   loop 7 iteration [next_object_only_when_this_one_is_safe] objectSafe() || (readFailed() && ignoreErrors)
 
-// The pass moves on to the next source shard only when the current shard's listing ended
-// (end of listing / degraded shard), never from the middle of a listed batch.
+// The pass moves on to the next source shard only when the current shard's listing reached its
+// end, never from the middle of a listed batch - and never because the shard could not be
+// listed at all: a source in DEGRADED_READ_ONLY mode (no metabase, objects still served from its
+// blob storage) passes the read-only precondition, and skipping it would report a successful
+// evacuation that moved none of its objects.
 //@ ghost pred listingEnded() bool
 //@ callrule c19_listing_verdict in (*StorageEngine).Evacuate
 //@   property C19
 //@   callee (*shard.Shard).ListWithCursor
 //@   pureeffect
-//@   defines err != nil ==> listingEnded()
+//@   defines errIs(err, metabase.ErrEndOfListing) ==> listingEnded()
 //@ func (*StorageEngine).Evacuate
 //@   property C19
 //@   loop 5 iteration [next_shard_only_after_the_listing_ended] listingEnded()
